@@ -28,6 +28,7 @@ import (
 	"sort"
 	"strings"
 	"sync"
+	"sync/atomic"
 	"testing"
 	"time"
 
@@ -590,7 +591,11 @@ func TestC13Workloads(t *testing.T) {
 				}
 			case "get":
 				k1 := keys[1].Pub
-				path := rapid.SampledFrom([]string{"/api/v1/equipment", "/api/v1/authorized-servers", "/api/v1/all-device-stats?timeslot_offset=0", "/api/v1/all-device-stats?timeslot_offset=2016&insert_false_negatives=true", "/api/v1/all-device-stats?timeslot_offset=0&insert_false_negatives=true", "/api/v1/archive", "/api/v1/recent-reports?publicKey=" + hex.EncodeToString(k1[:])}).Draw(t, "path")
+				path := rapid.SampledFrom([]string{"/api/v1/equipment", "/api/v1/authorized-servers", "/api/v1/all-device-stats?timeslot_offset=0", "/api/v1/all-device-stats?timeslot_offset=2016&insert_false_negatives=true", "/api/v1/all-device-stats?timeslot_offset=0&insert_false_negatives=true", "/api/v1/archive", "/api/v1/recent-reports?publicKey=" + hex.EncodeToString(k1[:]),
+					// requests that are refused: every early return must release what it took
+					"/api/v1/all-device-stats?timeslot_offset=4032", "/api/v1/all-device-stats?timeslot_offset=6048", "/api/v1/all-device-stats?timeslot_offset=8064&insert_false_negatives=true",
+					"/api/v1/all-device-stats?timeslot_offset=17", "/api/v1/all-device-stats?timeslot_offset=x", "/api/v1/all-device-stats", "/api/v1/all-device-stats?timeslot_offset=4294965248",
+					"/api/v1/recent-reports?publicKey=zz", "/api/v1/recent-reports", "/api/v1/recent-reports?publicKey=" + hex.EncodeToString(k1[:31])}).Draw(t, "path")
 				work = append(work, c13Work{"GET " + path, func(S *world.Server) error {
 					_, _, err := S.Get(path)
 					return err
@@ -631,7 +636,29 @@ func TestC13Workloads(t *testing.T) {
 			case "post-refused":
 				// signed by a key that is never the GCA: refused whatever the order
 				bad := keyFor("c13w-notgca")
-				if rapid.Bool().Draw(t, "srvOrMig") {
+				if which := rapid.IntRange(0, 3).Draw(t, "refusedKind"); which == 2 {
+					// an equipment authorization signed by a key that is not the GCA
+					a := ref.Auth{ShortID: 77, PublicKey: keyFor("c13w-unauth").Pub, Capacity: 5}
+					a.Sig = ref.Sign(bad, a.SigningBytes())
+					work = append(work, c13Work{"POST authorize-equipment (not GCA)", func(S *world.Server) error {
+						st, _, err := S.Authorize(a)
+						if err == nil && st == 200 {
+							return fmt.Errorf("equipment authorization by a non-GCA key honoured")
+						}
+						return err
+					}})
+				} else if which == 3 {
+					// bodies that do not decode: the handlers return early
+					route := rapid.SampledFrom([]string{"/api/v1/authorize-equipment", "/api/v1/authorized-servers", "/api/v1/equipment-migrate", "/api/v1/register-gca"}).Draw(t, "malformedRoute")
+					body := rapid.SampledFrom([]string{"{", "[]", "null", `{"ShortID":"x"}`, `{"PublicKey":[1,2,3]}`, ""}).Draw(t, "malformedBody")
+					work = append(work, c13Work{"POST " + route + " (malformed body)", func(S *world.Server) error {
+						st, _, err := S.Do("POST", route, []byte(body))
+						if err == nil && st == 200 {
+							return fmt.Errorf("malformed body %q accepted by %s", body, route)
+						}
+						return err
+					}})
+				} else if which == 0 {
 					as := ref.AuthServer{PublicKey: keyFor("c13w-peer").Pub, Location: "127.0.0.1", HttpPort: 1}
 					as.Sig = ref.Sign(bad, as.SigningBytes())
 					work = append(work, c13Work{"POST authorized-servers (not GCA)", func(S *world.Server) error {
@@ -692,12 +719,17 @@ func TestC13Workloads(t *testing.T) {
 		close(ch)
 		var wg sync.WaitGroup
 		errs := make(chan error, len(order))
+		var failed atomic.Bool
 		for g := 0; g < workers; g++ {
 			wg.Add(1)
 			go func() {
 				defer wg.Done()
 				for w := range ch {
+					if failed.Load() {
+						continue // after the first failure the rest is skipped (a wedged server would cost 20 s per operation)
+					}
 					if err := w.run(srv); err != nil {
+						failed.Store(true)
 						errs <- fmt.Errorf("%s: %v", w.desc, err)
 					}
 				}
